@@ -1,0 +1,8 @@
+//go:build verif
+
+// Contracts for gocv (see /verif/DESIGN.md). Comment-only file: takes no part in any build.
+
+package btc
+
+// ---- C33: address drivers reachable from Transaction.From must not panic --------------------------
+//@ func (*utxo).PubKeyToAddr [C33]
